@@ -13,6 +13,7 @@ holds the baton and hands it over only at yield points it reaches itself
 boundary; line mode: additionally every `line` trace event in a frame whose
 code lives under <repo>/pycparser/).
 """
+import gc
 import os
 import random
 import sys
@@ -67,6 +68,8 @@ class Scheduler:
         self.total_steps = 0
         self.switches = 0
         self.max_steps = INF
+        self.gc_every = 0
+        self.gc_count = 0
         self.hung = False
         self.blocked_waits = 0
         self.deadline_s = 300.0
@@ -172,6 +175,9 @@ class Scheduler:
         self.total_steps += 1
         a.steps += 1
         self.segments[-1][1] += 1
+        if self.gc_every and self.total_steps % self.gc_every == 0:
+            self.gc_count += 1
+            gc.collect()
         if self.total_steps > self.max_steps:
             self.hung = True
             raise StepCap("step cap exceeded")
@@ -266,6 +272,7 @@ class Actor:
         self.last_site = "start"
         self.preempted_inside = 0
         self.thread_ident = None
+        self.gen_asts = {}
         self.blocked_on = None
         self.vfile = None
         self.ntok = 0
@@ -332,7 +339,17 @@ class World:
             replay=spec.get("schedule"),
             est_steps=spec.get("est_steps"),
         )
+        # garbage collection is a source of nondeterminism (when cyclic garbage
+        # such as a dropped parser<->lexer pair is freed decides which addresses
+        # - id()s - get reused): the automatic collector is off during a run and
+        # collections happen only where the run's plan says so
+        g = spec.get("gc") or {"mode": "op-end"}
+        self.gc_mode = g.get("mode", "op-end")
+        self.gc_every = int(g.get("every", 500))
+        self.gc_runs = 0
         self.sched.max_steps = int(spec.get("max_steps", 50_000_000))
+        if self.gc_mode == "steps":
+            self.sched.gc_every = max(1, self.gc_every)
         self.sched.deadline_s = float(spec.get("deadline_s", 300.0))
         self.sched.switch_hook = self.on_switch if spec.get("probes", True) else None
         self.code_cache = {}
@@ -840,9 +857,17 @@ class OpRunner:
     def op_gen(self, op, res):
         a = self.a
         text = op_text(op)
-        pout, ast, pform = self._parse_outcome(
-            self.pyc.c_parser.CParser(), text, op.get("filename", "g.c"), keep=True, traced=False
-        )
+        prev = a.gen_asts.get((text, op.get("filename", "g.c"))) if op.get("same_ast") else None
+        if prev is not None:
+            # visit (another node of) the very AST object an earlier visit of this
+            # history already walked - ordinary use of one generator on one tree
+            pout, ast = prev
+            res["same_ast_object"] = True
+        else:
+            pout, ast, pform = self._parse_outcome(
+                self.pyc.c_parser.CParser(), text, op.get("filename", "g.c"), keep=True, traced=False
+            )
+            a.gen_asts[(text, op.get("filename", "g.c"))] = (pout, ast)
         res["input"] = {"k": pout["k"], "d": pout["d"]}
         if ast is None:
             res["out"] = {"k": "noinput", "d": pout["d"]}
@@ -1161,6 +1186,9 @@ def _actor_main(world, actor):
                 # cap hit at the op-boundary yield point itself
                 r = {"op": op["op"], "out": {"k": "hang", "d": "hang"}, "hang": True}
             actor.results.append(r)
+            if world.gc_mode == "op-end":
+                world.gc_runs += 1
+                gc.collect()
             if r.get("hang"):
                 break
     except BaseException as e:  # harness problem; reported by execute()
@@ -1203,6 +1231,7 @@ class _PoolThread:
                 self.done.release()
 
 
+_EXECUTES = 0
 _POOL = []
 os.register_at_fork(after_in_child=_POOL.clear)  # threads do not survive fork
 
@@ -1221,6 +1250,16 @@ def execute(pyc, spec, keep_full=True):
     world = World(pyc, spec)
     threads = _pool_threads(len(world.actors))
     simsync.CURRENT = world
+    # everything that exists now (incl. garbage of earlier runs) is parked in the
+    # permanent generation: collections during the run look only at objects the
+    # run itself allocated - cheap, and independent of the process history
+    global _EXECUTES
+    _EXECUTES += 1
+    gc_was_enabled = gc.isenabled()
+    gc.disable()
+    if _EXECUTES % 64 == 0:
+        gc.collect()
+    gc.freeze()
     try:
         for t, a in zip(threads, world.actors):
             t.job = (_actor_main, (world, a))
@@ -1230,6 +1269,9 @@ def execute(pyc, spec, keep_full=True):
             t.done.acquire()
     finally:
         simsync.CURRENT = None
+        gc.unfreeze()
+        if gc_was_enabled:
+            gc.enable()
     for a in world.actors:
         if a.harness_error:
             if a.harness_error.startswith("StepCap"):
@@ -1244,6 +1286,7 @@ def execute(pyc, spec, keep_full=True):
         "cross_shared": cross,
         "hung": world.sched.hung,
         "blocked_waits": world.sched.blocked_waits,
+        "gc_collections": world.gc_runs + world.sched.gc_count,
         "foreign_lexer_calls": world.foreign_lexer_calls,
         "preempted_inside": [a.preempted_inside for a in world.actors],
         "actors": [a.results for a in world.actors],
